@@ -440,13 +440,14 @@ Proof.
   unfold doomed. destruct (existsb _ (s_tasks sp)) eqn:E; auto. exfalso.
   apply existsb_exists in E. destruct E as (k' & Hk' & Hc'). cbn in Hc'.
   apply andb_true_iff in Hc'. destruct Hc' as [Hn Hr]. apply Pos.eqb_eq in Hn.
+  cbn in Hn. assert (Hnn : t_name k' = t_name k) by congruence.
   assert (k' = k).
-  { clear - Hnd Hk Hk' Hc Hn. induction (s_tasks sp) as [|x l IH]; [destruct Hk|].
+  { clear - Hnd Hk Hk' Hnn. induction (s_tasks sp) as [|x l IH]; [destruct Hk|].
     cbn in Hnd. inversion Hnd as [|? ? Hnot Hnd']; subst.
     destruct Hk as [->|Hk], Hk' as [->|Hk']; auto.
-    - exfalso. apply Hnot. rewrite <- Hn. apply in_map. exact Hk'.
-    - exfalso. apply Hnot. rewrite Hn. apply in_map. exact Hk. }
-  subst k'. rewrite andb_false_r, orb_false_r in Hr. unfold in_range in Hr. cbn in Hr.
+    - exfalso. apply Hnot. rewrite <- Hnn. apply in_map. exact Hk'.
+    - exfalso. apply Hnot. rewrite Hnn. apply in_map. exact Hk. }
+  subst k'. rewrite orb_false_r in Hr. unfold in_range in Hr. cbn in Hr.
   match goal with A : (0 <=? i) = true, B : (i <? t_replicas k) = true |- _ => rewrite A, B in Hr end. discriminate.
 Qed.
 
@@ -476,9 +477,35 @@ Theorem partial_converges : forall fixed sp P P',
 Proof.
   intros fixed sp P P' Hts Hnd Hnd' Hp t i.
   destruct (sync_exact_pods fixed sp P Hnd) as [_ H]. destruct (sync_exact_pods fixed sp P' Hnd') as [_ H'].
-  rewrite H, H'. specialize (Hp t i). destruct (find_pod t i P) as [q|].
-  - destruct Hp as [->|[Hd ->]]; auto. rewrite Hd. destruct (doomed sp (mark q)); reflexivity.
-  - destruct Hp as [->|[Hw ->]].
+  rewrite H, H'. pose proof (Hp t i) as Hti. destruct (find_pod t i P) as [q|].
+  - destruct Hti as [->|[Hd ->]]; auto. rewrite Hd. destruct (doomed sp (mark q)); reflexivity.
+  - destruct Hti as [->|[Hw ->]].
     + rewrite (partial_wanted sp P P' t i Hp). reflexivity.
     + rewrite Hw. rewrite (wanted_not_doomed sp P t i Hts Hw). reflexivity.
+Qed.
+
+(* ---------- idempotence ---------- *)
+Theorem sync_idempotent : forall fixed sp P,
+  NoDup (map t_name (s_tasks sp)) -> NoDup (pod_ids P) ->
+  forall t i, find_pod t i (pass fixed sp (pass fixed sp P)) = find_pod t i (pass fixed sp P).
+Proof.
+  intros fixed sp P Hts Hnd. apply partial_converges; auto.
+  - apply sync_pods_nodup; exact Hnd.
+  - apply faulty_sync_partial; exact Hnd.
+Qed.
+
+(* the second pass reports no error either *)
+Theorem sync_idempotent_noerr : forall fixed sp P, NoDup (pod_ids P) ->
+  a_err (sync_pods_gen fixed sp (pass fixed sp P) (pass fixed sp P) []) = false.
+Proof. intros. apply sync_exact_pods. apply sync_pods_nodup; assumption. Qed.
+
+(* ---------- crash / partial failure, restart, retry ---------- *)
+Theorem crash_restart_converges : forall fixed sp P F,
+  NoDup (map t_name (s_tasks sp)) -> NoDup (pod_ids P) ->
+  let crashed := a_pods (sync_pods_gen fixed sp P P F) in     (* API server after the interrupted pass *)
+  forall t i, find_pod t i (pass fixed sp crashed) = find_pod t i (pass fixed sp P).
+Proof.
+  intros fixed sp P F Hts Hnd crashed. apply partial_converges; auto.
+  - apply sync_pods_nodup; exact Hnd.
+  - apply faulty_sync_partial; exact Hnd.
 Qed.
